@@ -417,10 +417,15 @@ def run_objective(cell, su, fails, notes):
     cls = VariationalELBO if cell["objective"] == "ELBO" else PredictiveLogLikelihood
     kw = {"noise": su.fixed[idx]} if cell["lik"] == "FixedNoise" else {}
     ops = 0
-    for N, beta in itertools.product([N_DATA, 2 * N_DATA], [0.5, 1.0, 2.0]):
+    for N, beta in itertools.product([N_DATA, 2 * N_DATA], [0.5, 1.0, 2.0, 0.0]):   # beta = 0: the first step of a KL warm-up schedule
         mll = cls(su.lik, su.model, num_data=N, beta=beta)
         with torch.no_grad():
-            got = mll(su.model(su.X[idx]), su.y[idx], **kw)
+            try:
+                got = mll(su.model(su.X[idx]), su.y[idx], **kw)
+            except Exception as e:
+                fails.add("objective", util.exc_str(e), f"num_data={N} beta={beta}")
+                fails[-1]["features"] = {"num_data": N, "beta": beta}
+                continue
         ops += 2
         want = su.objective(m, Sq, idx, cell["objective"], N, beta, lp, added)
         ok, msg = util.close(got, want, 1e-9, 1e-9)
